@@ -83,7 +83,7 @@ ADDENDA = {
  "C06": "As built: a very long frame (32768 s) in the alphabet; companions for non-representable steps (0.1 .. 0.7, within float rounding) and for nanosecond-scale steps (1 ns .. 1 us x 512..4096 against one advance of the sum). A huge-steps companion (2^36 s timeline, advance(2^35) against two advance(2^34), up to 2^40 s). The huge-steps companion reaches 2^63, 2^64, 2^65, 2^100 s and f32::MAX. The negative-delay shape may be the initial timeline (histories whose first evaluation is a zero-length advance excepted). The normal form also removes detours from X/Y into the un-animated U1 and straight back. An absorbed-cycle companion: timelines whose whole active part lies below half an ulp of the delay (reported total == delay), every sequence of up to 4 steps from {0, D/4, D/2, D} against one advance of the sum, bit-equal, advance(0) a no-op on both sides.",
  "C07": "As built: 19-shape pool incl. keyframe-less timelines and merged components with different repeat counts; non-dyadic companion against the reported duration. The state-type twin of C05 is run here too. An over-on-entry companion enters states whose timeline has a total duration <= 0. An exact-landing companion delivers exactly the total duration for None/Times 0..3 x reverse x delay x cycle. The over-on-entry companion reports a panic as a violation.",
  "C08": "As built: also a second struct with attribute noise (P2) and a remote proxy with markers on some fields only (R3Proxy), both driven through keyframe_from and setters. The animator family starts in each of the four states and tracks the state the caller configured / set.",
- "C09": "As built: plain and merged timeline objects through one generic DFS; the before-start time of undelayed objects is negative zero; one probe time lies exactly on a keyframe position, one exactly on the end of the first cycle (the hold-at-100% instant, reachable after a time inside the second cycle).",
+ "C09": "As built: plain and merged timeline objects through one generic DFS; the before-start time of undelayed objects is negative zero; one probe time lies exactly on a keyframe position, one exactly on the end of the first cycle (the hold-at-100% instant, reachable after a time inside the second cycle); the thorough tier explores depth 5 over the six other times and depth 4 over all seven.",
  "C10": "As built: 4 start values (far away, Default, equal to the 0% value, large odd numbers f32 still holds exactly), every other case substitutes twice. Every third started timeline is also cloned AFTER start_with (clone, clone_from into an unstarted and into a differently started object): bit-equal to the original over the whole grid.",
  "C11": "As built: thorough covers all 9! orders of all 9 positions; a grid with positions outside [0,1]; WIDE timelines (up to 65 537 keyframes) inserted in six structured orders. Timings with a huge delay/cycle ratio (delay 65536 / cycle 3).",
  "C12": "As built: 600 stub components (negative delays and totals, near-equal cycles, Times(u32::MAX)), nested merged timelines, wide lists of up to 1025 components. MergedTimeline::of is fed from a Vec, a filtered iterator and a from_fn iterator in rotation. clone_from runs under catch_unwind.",
